@@ -802,3 +802,100 @@ def c04_l(ctx):
     if n < 4:
         ctx.undecided('expected the four known sites of the submission counter, found {}'
                       .format(n))
+
+
+def parallelism_sweep(ctx):
+    """Every read of `.max_parallel_batches` in elfi.methods / elfi.client*, classified by the
+    role of the read.  The number of batches in flight is a property of the client (it defaults
+    to the number of cores): it may gate submissions and seed the *initial* batch-count estimate
+    of an objective, nothing the sampler returns may be computed from it."""
+    n = 0
+    for m in ctx.repo.modules.values():
+        if not m.name.startswith('elfi') or m.name.startswith('elfi.examples'):
+            continue
+        for f in m.all_functions:
+            fnode = getattr(f, 'node', None)
+            if fnode is None or isinstance(fnode, ast.Lambda):
+                continue
+            for x in own_nodes(fnode):
+                if not (isinstance(x, ast.Attribute) and isinstance(x.ctx, ast.Load) and
+                        x.attr in ('max_parallel_batches', 'num_cores')):
+                    continue
+                n += 1
+                role = _parallelism_role(x, fnode)
+                if role is None and x.attr == 'num_cores':
+                    p_ = getattr(x, '_parent', None)
+                    st_ = _stmt_up(x)
+                    if isinstance(p_, ast.Return):
+                        role = 'accessor of the client\'s number of cores'
+                    elif isinstance(p_, ast.BoolOp) and isinstance(p_.op, ast.Or) and \
+                            p_.values[-1] is x and isinstance(st_, ast.Assign) and \
+                            len(st_.targets) == 1 and \
+                            isinstance(st_.targets[0], ast.Attribute) and \
+                            st_.targets[0].attr == 'max_parallel_batches':
+                        role = 'default of max_parallel_batches'
+                ctx.check(role is not None, f, 'use of ' + x.attr, role or '',
+                          '`{}` in {} computes with the number of batches in flight: what the '
+                          'sampler draws or returns then depends on max_parallel_batches (which '
+                          'defaults to the client\'s number of cores)'.format(
+                              src(_stmt_up(x))[:70], f.qname.split(':')[-1]), fn=f, node=x)
+    return n
+
+
+def _stmt_up(n):
+    while n is not None and not isinstance(n, ast.stmt):
+        n = getattr(n, '_parent', None)
+    return n
+
+
+def _parallelism_role(x, fnode):
+    p = getattr(x, '_parent', None)
+    # handed on under its own name / as the initial batch-count estimate of an objective
+    if isinstance(p, ast.keyword) and p.arg in ('max_parallel_batches', 'n_batches'):
+        return 'handed on as `{}`'.format(p.arg)
+    if isinstance(p, ast.Dict):
+        for k, v in zip(p.keys, p.values):
+            if v is x and isinstance(k, ast.Constant) and k.value == 'n_batches':
+                return 'initial batch-count estimate of the objective'
+    # the submission gate: compared with the number of pending batches
+    if isinstance(p, ast.Compare):
+        others = [e for e in [p.left] + list(p.comparators) if e is not x]
+        if any(isinstance(s, ast.Attribute) and s.attr in ('num_pending',)
+               for o in others for s in ast.walk(o)):
+            return 'submission gate (compared with the number of pending batches)'
+        if all(isinstance(o, ast.Constant) for o in others):
+            return 'validation against a constant'
+    # message formatting
+    q = p
+    while q is not None and not isinstance(q, ast.stmt):
+        if isinstance(q, ast.Call) and isinstance(q.func, ast.Attribute) and q.func.attr == 'format':
+            return 'message text'
+        q = getattr(q, '_parent', None)
+    # default of the batches-per-acquisition option (configuration of BO, fixed before the run)
+    if isinstance(p, ast.BoolOp) and isinstance(p.op, ast.Or) and p.values[-1] is x:
+        st = _stmt_up(x)
+        if isinstance(st, ast.Assign) and len(st.targets) == 1 and \
+                isinstance(st.targets[0], ast.Attribute) and \
+                st.targets[0].attr == 'batches_per_acquisition':
+            return 'default of batches_per_acquisition'
+    # a local that only ever becomes the initial batch-count estimate
+    if isinstance(p, ast.Assign) and len(p.targets) == 1 and isinstance(p.targets[0], ast.Name):
+        name = p.targets[0].id
+        loads = [n_ for n_ in ast.walk(fnode) if isinstance(n_, ast.Name) and n_.id == name and
+                 isinstance(n_.ctx, ast.Load)]
+        if loads and all(isinstance(getattr(l, '_parent', None), ast.keyword) and
+                         l._parent.arg == 'n_batches' for l in loads):
+            return 'initial batch-count estimate of the objective'
+    return None
+
+
+@obligation('C04-m', 'T10 T2', 'nothing is computed from max_parallel_batches: it is validated, handed '
+            'on, compared with the number of pending batches and used as the initial '
+            'batch-count estimate of an objective - nothing else', floor=5,
+            necessary='the results must be identical whatever max_parallel_batches is (it defaults '
+                      'to the number of cores of the client): a draw whose size, or a value that, '
+                      'is computed from it differs between clients')
+def c04_m(ctx):
+    n = parallelism_sweep(ctx)
+    if n < 5:
+        ctx.undecided('expected at least 5 reads of max_parallel_batches, found {}'.format(n))
